@@ -24,7 +24,8 @@ LM_OK = {("se2", "r2"), ("se3", "r3"), ("r2", "r2"), ("r3", "r3")}
 RULE = ("complete enumeration of %d configurations: edge kind (odometry, landmark) x pose class of each endpoint (1..3 endpoints, 4 classes) x estimate class (4 poses + ndarray) "
         "x offset class (4 poses + None, landmark only) x information shape (n x n for n=1..7, 3 non-square, 3 one-dimensional and 3 three-dimensional whose first and last extents match) x all ids present / one id absent (the edge fresh, or pre-bound to the named vertex objects / to stale twins from an earlier graph); case i is configuration "
         "i mod N under variant i div N (vertex list order, id class and extra unrelated vertices randomised per variant, ids held in a list / tuple / int64 array, every 5th construction with the library's loggers at DEBUG; quick: 1 variant, thorough: 12); followed by binding cases: the 8 consistent configurations and whole cluster graphs under random list orders / hostile ids, look-alike pairs (a consistent edge next to one that deviates in a single attribute), and construction through the file entry point with ids beyond 2^53. distinct = configuration "
-        "x variant; non-trivial = every configuration (each is a different point of the finite space)." % NCOMBO)
+        "x variant; non-trivial = every configuration (each is a different point of the finite space)."
+        " later additions: unbound edges' is_valid(), shallow-copied edges in a second graph, edges reused for short-lived vertex lists, empty vertex lists." % NCOMBO)
 NBIND = {"quick": 1200, "thorough": 40000}
 PLAN = {
     "quick": {"cases": NCOMBO + NBIND["quick"], "soft_s": 100, "min_nontrivial": NCOMBO, "require": ["eval:accept-iff-consistent", "eval:bound-by-id", "eval:accepted-edge-usable", "consistent_configurations",
